@@ -2,6 +2,7 @@
 // anyhow error payload, panics and text payloads of the real crate -- see DESIGN.md §3.2 "dropped")
 pub mod base {
 use vstd::prelude::*;
+use vstd::std_specs::cmp::*;
 
 /// `crate::utils::LabelType` without its `Debug + Display` bounds (display-only, dropped).
 pub trait LabelType: Clone + Eq + std::hash::Hash + Sized {}
@@ -26,6 +27,39 @@ pub fn vx_unreached() -> !
 /// text payloads: the value of a `format!` is never inspected.
 #[verifier::external_body]
 pub fn opaque_string() -> String { String::new() }
+
+/// R3h: verified stand-ins for `slice.iter().any(f)` and `slice.contains(x)` (same evaluation order and short-circuiting as
+/// the std functions; the specification speaks about the closure's own contract)
+pub fn vx_any<T, F: Fn(&T) -> bool>(s: &[T], f: F) -> (r: bool)
+    requires forall|i: int| 0 <= i < s@.len() ==> call_requires(f, (&#[trigger] s@[i],)),
+    ensures
+        r ==> exists|i: int| 0 <= i < s@.len() && call_ensures(f, (&#[trigger] s@[i],), true),
+        !r ==> forall|i: int| 0 <= i < s@.len() ==> call_ensures(f, (&#[trigger] s@[i],), false),
+{
+    let mut r = false;
+    for e in it: s.iter()
+        invariant
+            forall|i: int| 0 <= i < s@.len() ==> call_requires(f, (&#[trigger] s@[i],)),
+            r ==> exists|i: int| 0 <= i < s@.len() && call_ensures(f, (&#[trigger] s@[i],), true),
+            !r ==> forall|i: int| 0 <= i < it.index@ ==> call_ensures(f, (&#[trigger] s@[i],), false),
+    {
+        if !r { if f(e) { r = true; } }
+    }
+    r
+}
+
+pub fn vx_contains<T: PartialEq>(v: &[T], x: &T) -> (r: bool)
+    requires T::obeys_eq_spec(),
+    ensures r <==> exists|i: int| 0 <= i < v@.len() && (#[trigger] v@[i]).eq_spec(x),
+{
+    let mut r = false;
+    for e in it: v.iter()
+        invariant T::obeys_eq_spec(), r <==> exists|i: int| 0 <= i < it.index@ && (#[trigger] v@[i]).eq_spec(x),
+    {
+        if !r { if *e == *x { r = true; } }
+    }
+    r
+}
 
 /// R10: a field whose type Verus cannot represent and that no extracted function touches.
 #[verifier::external_body]
